@@ -31,15 +31,57 @@ using tbox::network::SockAddr;
 // discarded by the harness before the next op, which is what onUdpRecv would have done with it.
 typedef ssize_t (*sendto_fn)(int, const void *, size_t, int, const struct sockaddr *, socklen_t);
 static sendto_fn real_sendto() { static sendto_fn f = (sendto_fn)dlsym(RTLD_NEXT, "sendto"); return f; }
+typedef ssize_t (*recvfrom_fn)(int, void *, size_t, int, struct sockaddr *, socklen_t *);
+static recvfrom_fn real_recvfrom() { static recvfrom_fn f = (recvfrom_fn)dlsym(RTLD_NEXT, "recvfrom"); return f; }
 static int g_dns_fd = -1, g_tx = -1;
 static bool net_pending = false;
+// fault schedules (lesson b): the kernel's answers to the client's next sendto / recvfrom calls, from the op file.
+// 0 = pass through to the kernel, e > 0 = fail with errno e (sendto: nothing is sent; recvfrom: nothing is consumed).
+#include <deque>
+struct Sent { std::string bytes; long ret; };
+static std::deque<int> g_send_sched, g_recv_sched;
+static std::vector<Sent> g_sent;                     // the queries of the request() under way, as the kernel saw them
 extern "C" ssize_t sendto(int fd, const void *buf, size_t len, int flags, const struct sockaddr *to, socklen_t tolen) {
-    if (to && to->sa_family == AF_INET && ((const struct sockaddr_in *)to)->sin_port == htons(53)) g_dns_fd = fd;
-    return real_sendto()(fd, buf, len, flags, to, tolen);
+    bool dns = to && to->sa_family == AF_INET && ((const struct sockaddr_in *)to)->sin_port == htons(53);
+    if (!dns) return real_sendto()(fd, buf, len, flags, to, tolen);
+    g_dns_fd = fd;
+    int e = 0;
+    if (!g_send_sched.empty()) { e = g_send_sched.front(); g_send_sched.pop_front(); }
+    ssize_t r;
+    if (e) { errno = e; r = -1; }
+    else r = real_sendto()(fd, buf, len, flags, to, tolen);
+    int saved = errno;
+    g_sent.push_back(Sent{std::string((const char *)buf, len), r < 0 ? -(long)saved : (long)r});
+    errno = saved;
+    return r;
+}
+extern "C" ssize_t recvfrom(int fd, void *buf, size_t len, int flags, struct sockaddr *from, socklen_t *fromlen) {
+    if (fd == g_dns_fd && g_dns_fd >= 0 && !g_recv_sched.empty()) {
+        int e = g_recv_sched.front(); g_recv_sched.pop_front();
+        if (e) { errno = e; return -1; }
+    }
+    return real_recvfrom()(fd, buf, len, flags, from, fromlen);
+}
+// where datagrams for the client must be sent.  If every sendto of the client was failed by the fault schedule the kernel
+// never auto-bound the socket: the harness binds it to an ephemeral loopback port itself (what the first successful
+// sendto would have done) so that `net`/`sock` can still deliver.
+static bool dns_addr(struct sockaddr_in &a) {
+    socklen_t l = sizeof a; memset(&a, 0, sizeof a);
+    if (g_dns_fd < 0) return false;
+    if (getsockname(g_dns_fd, (struct sockaddr *)&a, &l) != 0) return false;
+    if (a.sin_port == 0) {
+        struct sockaddr_in b; memset(&b, 0, sizeof b); b.sin_family = AF_INET; b.sin_addr.s_addr = htonl(INADDR_ANY);
+        if (bind(g_dns_fd, (struct sockaddr *)&b, sizeof b) != 0) return false;
+        l = sizeof a;
+        if (getsockname(g_dns_fd, (struct sockaddr *)&a, &l) != 0 || a.sin_port == 0) return false;
+    }
+    a.sin_family = AF_INET; a.sin_addr.s_addr = htonl(INADDR_LOOPBACK);
+    return true;
 }
 static void drain_socket() {
     if (net_pending && g_dns_fd >= 0) { static char junk[70000]; while (recv(g_dns_fd, junk, sizeof junk, MSG_DONTWAIT) >= 0) {} }
     net_pending = false;
+    g_recv_sched.clear();
 }
 
 struct Probe : public DnsRequest {
@@ -64,6 +106,7 @@ static DnsRequest::IPAddressVec servers(unsigned n) {
 
 static void reset_case() {
     drain_socket();
+    g_send_sched.clear(); g_sent.clear();
     delete dns;
     g_dns_fd = -1;
     dns = new Probe(loop, servers(1));
@@ -100,7 +143,7 @@ static bool parse_acts(const std::string &w, std::vector<ActT> &out) {
     return !w.empty() && w.back() != ',';
 }
 
-static unsigned do_lookup(uint64_t sid);
+static unsigned do_lookup(uint64_t sid, bool top = false, const std::string *name = nullptr, bool quiet = false);
 
 static void on_result(uint64_t me, std::vector<ActT> sc, const DnsRequest::Result &r) {
     std::string a, c;
@@ -117,7 +160,8 @@ static void on_result(uint64_t me, std::vector<ActT> sc, const DnsRequest::Resul
               << " c=" << (c.empty() ? "-" : c) << std::endl;
     for (auto &act : sc) {                             // `sc` is a copy: the closure may be destroyed by a cancel below
         if (act.kind == 'L') {
-            std::cout << "P act " << me << " L" << act.arg << " ret=" << do_lookup(act.arg) << std::endl;
+            unsigned nid = do_lookup(act.arg);          // prints the query it sent first
+            std::cout << "P act " << me << " L" << act.arg << " ret=" << nid << std::endl;
         } else if (act.kind == 'C') {
             std::cout << "P act " << me << " C" << act.arg << " ret=" << (dns->cancel((DnsRequest::ReqId)act.arg) ? 1 : 0) << std::endl;
         } else if (act.kind == 'V') {
@@ -137,12 +181,14 @@ static void on_result(uint64_t me, std::vector<ActT> sc, const DnsRequest::Resul
 
 struct Ctx { uint64_t me; std::vector<ActT> script; std::string tag; };
 
-static unsigned do_lookup(uint64_t sid) {
+static const std::string kDefaultName = "verif.example.com";
+static unsigned do_lookup(uint64_t sid, bool top, const std::string *name, bool quiet) {
     uint64_t me = serial++;
+    g_sent.clear();
     if (ids.size() <= me) ids.resize(me + 1, 0);
     // the script is bound when the lookup is issued (lean: `st.scripts.getD sid []` in `lookup`)
     Ctx ctx{me, sid < scripts.size() ? scripts[sid] : std::vector<ActT>(), std::string(40, 'x')};
-    auto id = dns->request(DomainName("verif.example.com"), [ctx](const DnsRequest::Result &r) {
+    auto id = dns->request(DomainName(name ? *name : kDefaultName), [ctx](const DnsRequest::Result &r) {
         on_result(ctx.me, ctx.script, r);
         if (touch_captures) {                         // like an ordinary callback it keeps using its captures after its API
                                                       // calls: a callable destroyed under its feet is an ASan report
@@ -150,7 +196,56 @@ static unsigned do_lookup(uint64_t sid) {
         }
     });
     ids[me] = (unsigned)id;
+    if (!quiet) {
+        // the query as the kernel saw it: every server must have been sent the same bytes; a refused request() sends nothing
+        if (id == 0) { if (!g_sent.empty()) std::cout << "P q-after-refusal" << std::endl; }
+        else if (g_sent.empty()) std::cout << "P q-none" << std::endl;
+        else {
+            bool same = true;
+            for (auto &x : g_sent) if (x.bytes != g_sent[0].bytes) same = false;
+            std::cout << (same ? "P q " : "P q-differ ") << vh::hex(g_sent[0].bytes) << std::endl;
+            if (top) {
+                std::cout << "M sendto n=" << g_sent.size() << " len=" << g_sent[0].bytes.size() << " rets=";
+                for (size_t i = 0; i < g_sent.size(); ++i) std::cout << (i ? "," : "") << g_sent[i].ret;
+                std::cout << std::endl;
+            }
+        }
+    }
+    g_sent.clear();
+    g_send_sched.clear();
     return (unsigned)id;
+}
+
+// `P ret=<id>` must come BEFORE the query lines of the same request (driver order): buffer them
+static void lookup_top(uint64_t sid, const std::string *name) {
+    std::ostringstream held;
+    auto *old = std::cout.rdbuf(held.rdbuf());
+    unsigned id = do_lookup(sid, true, name);
+    std::cout.rdbuf(old);
+    std::cout << "P ret=" << id << std::endl << held.str() << std::flush;
+}
+
+static bool parse_nats(const std::string &w, std::vector<int> &out) {
+    out.clear();
+    if (w == "-") return true;
+    std::stringstream ss(w); std::string t;
+    while (std::getline(ss, t, ',')) { uint64_t v = 0; if (!vh::to_u64(t, v) || v >= 4096) return false; out.push_back((int)v); }
+    return !w.empty() && w.back() != ',';
+}
+
+struct KAnsT { int err; std::vector<uint8_t> data; };
+static bool parse_kans(const std::string &w, std::vector<KAnsT> &out) {
+    out.clear();
+    if (w.empty() || w.back() == ',') return false;
+    std::stringstream ss(w); std::string t;
+    while (std::getline(ss, t, ',')) {
+        KAnsT k{0, {}}; uint64_t v = 0;
+        if (t == "Z") { out.push_back(k); continue; }
+        if (t.size() >= 2 && t[0] == 'E') { if (!vh::to_u64(t.substr(1), v) || v >= 4096) return false; k.err = (int)v; out.push_back(k); continue; }
+        if (t == "-" || !vh::unhex(t, k.data)) return false;
+        out.push_back(k);
+    }
+    return !out.empty();
 }
 
 int main() {
@@ -160,31 +255,54 @@ int main() {
     g_tx = socket(AF_INET, SOCK_DGRAM, 0);
     vh::LoopDriver drv(loop);
     reset_case();
+    unsigned idle_passes = 0;
     drv.step = [&]() -> bool {
         std::string line;
+        if (idle_passes > 0) { --idle_passes; return true; }      // a `sock` op is still being served: one recvfrom per pass
         drain_socket();
         if (!std::getline(std::cin, line)) { delete dns; dns = nullptr; return false; }
         auto w = vh::words(line);
         if (w.empty()) return true;
         if (w[0] == "case") { reset_case(); std::cout << line << std::endl; return true; }
-        uint64_t n = 0; std::vector<uint8_t> d; std::vector<ActT> acts;
+        uint64_t n = 0; std::vector<uint8_t> d; std::vector<ActT> acts; std::vector<int> nats; std::vector<KAnsT> kans;
         if (w[0] == "servers" && w.size() == 2 && vh::to_u64(w[1], n) && n < 4) {
             dns->setDnsIPAddresses(servers((unsigned)n));
             std::cout << "P ret=0" << std::endl;
         } else if (w[0] == "lookup" && w.size() == 1) {
-            std::cout << "P ret=" << do_lookup(kNoScript) << std::endl;
+            lookup_top(kNoScript, nullptr);
         } else if (w[0] == "lookup" && w.size() == 2 && vh::to_u64(w[1], n) && n < 64) {
-            std::cout << "P ret=" << do_lookup(n) << std::endl;
+            lookup_top(n, nullptr);
+        } else if (w[0] == "lookupn" && w.size() == 4 && vh::unhex(w[1], d) && (w[2] == "-" || (vh::to_u64(w[2], n) && n < 64)) &&
+                   parse_nats(w[3], nats)) {
+            std::string name((const char *)d.data(), d.size());
+            g_send_sched.assign(nats.begin(), nats.end());
+            lookup_top(w[2] == "-" ? kNoScript : n, &name);
+        } else if (w[0] == "sock" && w.size() == 2 && parse_kans(w[1], kans)) {
+            std::cout << "P ret=0" << std::endl;
+            struct sockaddr_in a;
+            bool bound = dns_addr(a);
+            g_recv_sched.clear();
+            for (auto &k : kans) {
+                g_recv_sched.push_back(k.err);
+                if (k.err == 0 && bound) { real_sendto()(g_tx, k.data.data(), k.data.size(), 0, (struct sockaddr *)&a, sizeof a); net_pending = true; }
+            }
+            idle_passes = (unsigned)kans.size() - 1;       // one loop pass per kernel answer; the last one is the pass before the next op
+        } else if (w[0] == "recva" && w.size() == 3 && vh::to_u64(w[1], n) && n < 8 && vh::unhex(w[2], d)) {
+            std::cout << "P ret=0" << std::endl;
+            // the datagram starts at an address = n (mod 8) and ends exactly at the end of its heap block (ASan redzone)
+            std::unique_ptr<uint8_t[]> blk(new uint8_t[n + d.size()]);
+            if (!d.empty()) memcpy(blk.get() + n, d.data(), d.size());
+            dns->feed(blk.get() + n, d.size());
         } else if (w[0] == "defscript" && w.size() == 2 && parse_acts(w[1], acts)) {
             scripts.push_back(acts);
             std::cout << "P ret=" << scripts.size() - 1 << std::endl;
         } else if (w[0] == "churn" && w.size() == 2 && vh::to_u64(w[1], n) && n >= 1 && n <= 70000) {
             unsigned last = 0;                        // n times request(); cancel(id): moves the id counter, leaves nothing outstanding
-            for (uint64_t i = 0; i < n; ++i) { last = do_lookup(kNoScript); dns->cancel((DnsRequest::ReqId)last); }
+            for (uint64_t i = 0; i < n; ++i) { last = do_lookup(kNoScript, false, nullptr, true); dns->cancel((DnsRequest::ReqId)last); }
             std::cout << "P ret=" << last << std::endl;
         } else if (w[0] == "burst" && w.size() == 2 && vh::to_u64(w[1], n) && n >= 1 && n <= 70000) {
             unsigned last = 0;
-            for (uint64_t i = 0; i < n; ++i) last = do_lookup(kNoScript);
+            for (uint64_t i = 0; i < n; ++i) last = do_lookup(kNoScript, false, nullptr, true);
             std::cout << "P ret=" << last << std::endl;
         } else if (w[0] == "touch" && w.size() == 2 && (w[1] == "on" || w[1] == "off")) {
             touch_captures = (w[1] == "on");
@@ -200,9 +318,8 @@ int main() {
             dns->feed(blk.get(), d.size());
         } else if (w[0] == "net" && w.size() == 2 && vh::unhex(w[1], d)) {
             std::cout << "P ret=0" << std::endl;
-            struct sockaddr_in a; socklen_t l = sizeof a; memset(&a, 0, sizeof a);
-            if (g_dns_fd >= 0 && getsockname(g_dns_fd, (struct sockaddr *)&a, &l) == 0 && a.sin_port != 0) {
-                a.sin_family = AF_INET; a.sin_addr.s_addr = htonl(INADDR_LOOPBACK);
+            struct sockaddr_in a;
+            if (dns_addr(a)) {
                 real_sendto()(g_tx, d.data(), d.size(), 0, (struct sockaddr *)&a, sizeof a);   // picked up in the next pass
                 net_pending = true;
             }
